@@ -5,7 +5,7 @@
   positional evidence supporting the dynamic oracle (bytes at dst after refusal).
 -/
 import AgeModel.Extracted.CallOrder
-import Proofs.GoTieMisc
+import Proofs.GoTieSlicesEq
 import Proofs.GoTieEncrypt
 namespace AgeModel
 namespace Tie.C11
